@@ -2,6 +2,7 @@ package e2
 
 import (
 	"crypto/sha256"
+	"crypto/sha512"
 	"fmt"
 	"strings"
 
@@ -411,21 +412,21 @@ func C01Cases(tier string, seed int64) []Case {
 		pol := thresholdPolicy(2, idPools[1][:3])
 		q := sortedIDs(pol.IDs)[:2]
 		cases = append(cases, Case{ID: fmt.Sprintf("C01/dkls23-bbot/%s/quorum=%s", pol.Name, setName(q)),
-			Desc: map[string]any{"protocol": "dkls23 signing_bbot rounds 1-4", "policy": pol.Name, "quorum": q, "randomness": "symbolic"},
-			Sym:  func(e *SymEnv) { c01Dkls23(e, pol, q, []byte("dkls23 message")) }, MustReach: []string{"dkls23-done"}, NoConcreteValidation: true})
+			Desc: map[string]any{"protocol": "dkls23 signing_bbot rounds 1-4", "suite hash": "SHA-512 (digest longer than the group order: leftmost-bits truncation)", "policy": pol.Name, "quorum": q, "randomness": "symbolic"},
+			Sym:  func(e *SymEnv) { dklsHash = sha512.New; c01Dkls23(e, pol, q, []byte("dkls23 message")) }, MustReach: []string{"dkls23-done"}, NoConcreteValidation: true})
 		cases = append(cases, Case{ID: fmt.Sprintf("C01/dkls23-softspoken/%s/quorum=%s", pol.Name, setName(q)),
 			Desc: map[string]any{"protocol": "dkls23 signing_softspoken rounds 1-5", "policy": pol.Name, "quorum": q, "randomness": "symbolic"},
-			Sym:  func(e *SymEnv) { c01Dkls23Soft(e, pol, q, []byte("dkls23 message")) }, MustReach: []string{"dkls23-softspoken-done"}, NoConcreteValidation: true})
+			Sym:  func(e *SymEnv) { dklsHash = sha256.New; c01Dkls23Soft(e, pol, q, []byte("dkls23 message")) }, MustReach: []string{"dkls23-softspoken-done"}, NoConcreteValidation: true})
 		if tier == "thorough" {
 			pol2 := cnfPolicy([]int{0b001, 0b110}, idPools[0][:3])
 			q2 := sortedIDs(pol2.IDs)[:2]
 			cases = append(cases, Case{ID: fmt.Sprintf("C01/dkls23-bbot/%s/quorum=%s", pol2.Name, setName(q2)),
 				Desc: map[string]any{"protocol": "dkls23 signing_bbot rounds 1-4", "policy": pol2.Name, "quorum": q2, "randomness": "symbolic"},
-				Sym:  func(e *SymEnv) { c01Dkls23(e, pol2, q2, []byte("dkls23 message")) }, MustReach: []string{"dkls23-done"}, NoConcreteValidation: true})
+				Sym:  func(e *SymEnv) { dklsHash = sha256.New; c01Dkls23(e, pol2, q2, []byte("dkls23 message")) }, MustReach: []string{"dkls23-done"}, NoConcreteValidation: true})
 			q3 := sortedIDs(pol.IDs)
 			cases = append(cases, Case{ID: fmt.Sprintf("C01/dkls23-bbot/%s/quorum=%s", pol.Name, setName(q3)),
 				Desc: map[string]any{"protocol": "dkls23 signing_bbot rounds 1-4", "policy": pol.Name, "quorum": q3, "randomness": "symbolic"},
-				Sym:  func(e *SymEnv) { c01Dkls23(e, pol, q3, []byte("dkls23 message")) }, MustReach: []string{"dkls23-done"}, NoConcreteValidation: true})
+				Sym:  func(e *SymEnv) { dklsHash = sha256.New; c01Dkls23(e, pol, q3, []byte("dkls23 message")) }, MustReach: []string{"dkls23-done"}, NoConcreteValidation: true})
 		}
 	}
 	cases = append(cases, c01BoldyrevaCases(tier)...)
